@@ -1,0 +1,153 @@
+//! Verification hook (compiled only with `--cfg wac_verif`): reports violated
+//! internal invariants of a [`CompositionGraph`]. Add-only; not part of the API.
+
+use super::{CompositionGraph, Edge, NodeKind};
+use petgraph::{visit::EdgeRef, Direction};
+use std::collections::HashSet;
+use wac_types::ItemKind;
+
+impl CompositionGraph {
+    /// Returns a description of every internal invariant that does not hold.
+    pub fn verif_invariants(&self) -> Vec<String> {
+        let mut out = Vec::new();
+
+        for index in self.graph.node_indices() {
+            let node = &self.graph[index];
+            let i = index.index();
+
+            if let Some(pkg) = node.package {
+                match self.packages.get(pkg.index) {
+                    Some(entry) if entry.package.is_some() && entry.generation == pkg.generation => {}
+                    _ => out.push(format!("node {i} refers to a package id that is not live")),
+                }
+            }
+
+            match &node.kind {
+                NodeKind::Instantiation(satisfied) => {
+                    if node.package.is_none() {
+                        out.push(format!("instantiation node {i} has no package"));
+                    }
+                    let mut edges = HashSet::new();
+                    for e in self.graph.edges_directed(index, Direction::Incoming) {
+                        match e.weight() {
+                            Edge::Argument(a) => {
+                                if !edges.insert(*a) {
+                                    out.push(format!(
+                                        "instantiation node {i} has two argument edges for argument index {a}"
+                                    ));
+                                }
+                            }
+                            _ => out.push(format!(
+                                "instantiation node {i} has an incoming non-argument edge"
+                            )),
+                        }
+                    }
+                    if &edges != satisfied {
+                        let mut s: Vec<_> = satisfied.iter().copied().collect();
+                        let mut e: Vec<_> = edges.iter().copied().collect();
+                        s.sort();
+                        e.sort();
+                        out.push(format!(
+                            "instantiation node {i}: satisfied set {s:?} differs from incoming argument edges {e:?}"
+                        ));
+                    }
+                }
+                NodeKind::Alias => {
+                    let sources: Vec<_> = self
+                        .graph
+                        .edges_directed(index, Direction::Incoming)
+                        .filter(|e| matches!(e.weight(), Edge::Alias(_)))
+                        .collect();
+                    if sources.len() != 1 {
+                        out.push(format!(
+                            "alias node {i} has {n} incoming alias edges",
+                            n = sources.len()
+                        ));
+                    }
+                    for e in sources {
+                        match (self.graph[e.source()].item_kind, e.weight()) {
+                            (ItemKind::Instance(id), Edge::Alias(export)) => {
+                                if *export >= self.types[id].exports.len() {
+                                    out.push(format!(
+                                        "alias node {i} refers to export index {export} out of range"
+                                    ));
+                                }
+                            }
+                            _ => out.push(format!(
+                                "alias node {i} has a source that is not an instance"
+                            )),
+                        }
+                    }
+                }
+                NodeKind::Import(name) => match self.imports.get(name) {
+                    Some(n) if *n == index => {}
+                    _ => out.push(format!(
+                        "import node {i} (`{name}`) is not what the import map records for its name"
+                    )),
+                },
+                NodeKind::Definition => match self.defined.get(&node.item_kind.ty()) {
+                    Some(n) if *n == index => {}
+                    _ => out.push(format!(
+                        "definition node {i} is not what the defined-type map records for its type"
+                    )),
+                },
+            }
+
+            if let Some(name) = &node.export {
+                match self.exports.get(name) {
+                    Some(n) if *n == index => {}
+                    _ => out.push(format!(
+                        "node {i} records export name `{name}` but the export map does not point back to it"
+                    )),
+                }
+            }
+        }
+
+        for (name, index) in &self.exports {
+            if self.graph.node_weight(*index).is_none() {
+                out.push(format!(
+                    "export map entry `{name}` refers to removed node {i}",
+                    i = index.index()
+                ));
+            }
+        }
+
+        for (name, index) in &self.imports {
+            match self.graph.node_weight(*index).map(|n| &n.kind) {
+                Some(NodeKind::Import(n)) if n == name => {}
+                _ => out.push(format!(
+                    "import map entry `{name}` does not refer to a live import node of that name"
+                )),
+            }
+        }
+
+        for (ty, index) in &self.defined {
+            match self.graph.node_weight(*index) {
+                Some(n) if matches!(n.kind, NodeKind::Definition) && n.item_kind.ty() == *ty => {}
+                _ => out.push(format!(
+                    "defined-type map entry refers to node {i} which is not a live definition of that type",
+                    i = index.index()
+                )),
+            }
+        }
+
+        for (key, id) in &self.package_map {
+            match self.packages.get(id.index) {
+                Some(entry)
+                    if entry.generation == id.generation
+                        && entry.package.as_ref().map(|p| p.name() == key.name()).unwrap_or(false) => {}
+                _ => out.push(format!("package map entry `{key}` does not refer to a live package")),
+            }
+        }
+
+        let live = self.packages.iter().filter(|p| p.package.is_some()).count();
+        if live != self.package_map.len() {
+            out.push(format!(
+                "{live} live packages but {n} package map entries",
+                n = self.package_map.len()
+            ));
+        }
+
+        out
+    }
+}
